@@ -3,7 +3,7 @@ import os, re
 from common import *
 G = os.path.dirname(os.path.dirname(os.path.abspath(__file__)))
 LEVEL_TEXT = 'bounded model checking of the link-name decision (utils::names_will_be_identical_after_mangling and both call sites) against the x86 name-decoration table, plus the ABI feature gate (shared with C14)'
-OUTSIDE = ['argument lowering, by-value aggregates, function-pointer wrapping, variadic tails (token templates over the real IR)', 'cursor_mangling (libclang)', 'method receivers / constructors', 'that the `_` prefix rule is target dependent (ELF has no prefix): read, not checkable here',
+OUTSIDE = ['argument lowering, by-value aggregates, function-pointer wrapping, variadic tails (token templates over the real IR)', 'cursor_mangling (libclang)', 'method receivers / constructors', 'BindgenContext::target_decorates_symbols (a test on the target triple string): a symbolic flag here',
            'calling the bound functions (needs a C compiler and a linker)']
 EXPLANATION = 'canonical/mangled/original names are symbolic byte strings (lengths <= 3/7/5 over [a _ @ 7 $]), ABI symbolic; oracle = decoration table (cdecl _name, stdcall _name@N, fastcall @name@N).'
 
@@ -27,6 +27,14 @@ def build(tier, seed):
             i = match_brace(mod, i) if mod[i] in '({[' else i + 1
         var_stmt = mod[m.start():i + 1]
         h = open(os.path.join(G, 'harness', 'c04.rs')).read()
+        # the function takes the context since the repair of F27 (target-dependent decoration); the adapter keeps the harness
+        # compiling against either signature, so that a revert is judged (VIOLATION) instead of failing to build
+        head = names[:names.index('{')]
+        if re.search(r'\bctx: &BindgenContext', head):
+            adapter = 'macro_rules! names_identical { ($ctx:expr, $c:expr, $m:expr, $abi:expr) => { utils::names_will_be_identical_after_mangling($ctx, $c, $m, $abi) }; }'
+        else:
+            adapter = 'macro_rules! names_identical { ($ctx:expr, $c:expr, $m:expr, $abi:expr) => { { let _ = $ctx; utils::names_will_be_identical_after_mangling($c, $m, $abi) } }; }'
+        h = h.replace('/*NAMES_ADAPTER*/', adapter)
         h = h.replace('/*ABI_ENUM*/', abi_enum).replace('/*NAMES_FN*/', names).replace('/*FN_STMT*/', fn_stmt).replace('/*VAR_STMT*/', var_stmt)
         kern = Kernel(name='link_name')
         kern.files = {'src/lib.rs': h}
@@ -39,7 +47,7 @@ def build(tier, seed):
         kern.encoded = [enc('codegen/mod.rs', 'utils::names_will_be_identical_after_mangling', names), enc('codegen/mod.rs', 'Function::codegen: link_name_attr statement', fn_stmt),
                         enc('codegen/mod.rs', 'Var::codegen: symbol statement', var_stmt), enc('ir/function.rs', 'enum Abi', abi_enum)]
         kern.stubs = ['ClangAbi: Known(Abi)/Unknown(u32)', 'Function/Var: fields link_name/mangled_name/name', 'attributes::link_name: returns a marker instead of tokens']
-        kern.assumptions = ['names are non-empty ASCII over [a _ @ 7 $]; the platform decorates as the x86 table says (cdecl _name; stdcall _name@digits; fastcall @name@digits)']
+        kern.assumptions = ['names are non-empty ASCII over [a _ @ 7 $]; a decorating platform (Mach-O, 32-bit x86 Windows) decorates as the x86 table says (cdecl _name; stdcall _name@digits; fastcall @name@digits), every other platform emits the name as written']
         kern.bounds = ['name lengths <= 3 (canonical, original, link), <= 7 / 5 (mangled); unwind 10']
         return [kern]
     def abi():
